@@ -22,8 +22,9 @@ def sh(cmd, **k):
 
 
 def run_demo(demo, pid):
-    src = open(demo).read().replace('/tmp/seed2/%s' % pid, WT).replace(
-        '/tmp/seed/%s' % pid, WT)
+    src = open(demo).read()
+    for base in ('/tmp/seed3', '/tmp/seed2', '/tmp/seed'):
+        src = src.replace('%s/%s' % (base, pid), WT)
     tmp = '/tmp/evalseed_demo_%d.py' % os.getpid()
     open(tmp, 'w').write(src)
     is_pytest = bool(re.search(r'^def test_|^class Test', src, re.M)) and \
